@@ -2,18 +2,17 @@ package main
 
 // DevsAnalysis.MergeResults vs. the Lean model on generated results.
 import (
-	"bufio"
 	"fmt"
 	"math/rand"
-	"os"
 	"sort"
-	"strconv"
 	"strings"
+	"time"
 
 	"gopkg.in/src-d/hercules.v10/internal/core"
 	items "gopkg.in/src-d/hercules.v10/internal/plumbing"
 	"gopkg.in/src-d/hercules.v10/internal/plumbing/identity"
 	"gopkg.in/src-d/hercules.v10/leaves"
+	"gopkg.in/src-d/hercules.v10/verifharness/hv"
 )
 
 func show(s string) string {
@@ -116,13 +115,8 @@ func encTicks(t map[int]map[int]*leaves.DevTick) string {
 }
 
 func main() {
-	seed, _ := strconv.ParseInt(os.Args[1], 10, 64)
-	count, _ := strconv.Atoi(os.Args[2])
-	ops, _ := os.Create(os.Args[3])
-	impl, _ := os.Create(os.Args[4])
-	wo, wi := bufio.NewWriter(ops), bufio.NewWriter(impl)
-	defer wo.Flush()
-	defer wi.Flush()
+	seed, count, wo, wi, _, done := hv.Args()
+	defer done()
 	const epoch = 62135596800
 	for it := 0; it < count; it++ {
 		rng := rand.New(rand.NewSource(seed + int64(it)))
@@ -149,5 +143,50 @@ func main() {
 			out = ""
 		}
 		fmt.Fprintf(wi, "%s # %s\n", strings.Join(ss, ";"), strings.ReplaceAll(out, ";", " "))
+		// Go-side statement of C18 for developer statistics (oracle): records add up per absolute tick period and
+		// merged developer; tick periods are counted from the zero time (time.Truncate)
+		{
+			ts := time.Duration(tsSec) * time.Second
+			s1, s2 := time.Unix(b1, 0).Truncate(ts), time.Unix(b2, 0).Truncate(ts)
+			s0 := s1
+			if s2.Before(s0) {
+				s0 = s2
+			}
+			people, _ := identity.MergeReversedDictsIdentities(rd1, rd2)
+			want := map[int]map[int]*leaves.DevTick{}
+			add := func(ticks map[int]map[int]*leaves.DevTick, rd []string, start time.Time) {
+				off := int(start.Sub(s0) / ts)
+				for tk, dd := range ticks {
+					for dev, st := range dd {
+						nd := dev
+						if dev != identity.AuthorMissing {
+							nd = people[rd[dev]].Final
+						}
+						if want[tk+off] == nil {
+							want[tk+off] = map[int]*leaves.DevTick{}
+						}
+						w := want[tk+off][nd]
+						if w == nil {
+							w = &leaves.DevTick{Languages: map[string]items.LineStats{}}
+							want[tk+off][nd] = w
+						}
+						w.Commits += st.Commits
+						w.Added += st.Added
+						w.Removed += st.Removed
+						w.Changed += st.Changed
+						for l, x := range st.Languages {
+							p := w.Languages[l]
+							w.Languages[l] = items.LineStats{Added: p.Added + x.Added, Removed: p.Removed + x.Removed, Changed: p.Changed + x.Changed}
+						}
+					}
+				}
+			}
+			add(t1, rd1, s1)
+			add(t2, rd2, s2)
+			if encTicks(want) != encTicks(m.Ticks) {
+				hv.Fail("devs-merge", fmt.Sprintf(`{"rd1":%q,"rd2":%q,"begin1":%d,"begin2":%d,"tick_s":%d,"ticks1":%q,"ticks2":%q}`, enc(rd1), enc(rd2), b1, b2, tsSec, encTicks(t1), encTicks(t2)),
+					"merged records "+encTicks(m.Ticks)+", per aligned tick and merged developer the inputs add up to "+encTicks(want))
+			}
+		}
 	}
 }
